@@ -527,6 +527,66 @@ class Facts:
         cache[key] = out
         return out
 
+    def closure_flat(self, cl):
+        """(view, captures): the body of closure `cl` with every captured variable turned into a local of its own -
+        `(*(*_1).k)` (captured by reference) becomes the synthetic local S_k - so that rules written for loops with
+        plain local counters read a stateful closure (`take_while(|c| { line += ..; .. })`) the same way.
+        captures: S_k -> the place of the parent the capture refers to (None when it cannot be read)."""
+        import copy
+        key = ('flat', cl.id)
+        cache = self.__dict__.setdefault('_flat', {})
+        if key in cache:
+            return cache[key]
+        mir = copy.deepcopy(cl.mir)
+        base = len(mir['locals'])
+        temps = {}
+        for blk in mir['blocks']:
+            keep = []
+            for st in blk['stmts']:
+                op = st['rv'].get('op') if st['s'] == 'assign' and st['rv']['r'] == 'use' else None
+                if op and not st['place']['proj'] and op.get('l') == 1 and op.get('proj') and all(p['p'] in ('deref', 'field') for p in op['proj']) \
+                        and sum(1 for p in op['proj'] if p['p'] == 'field') == 1 and str(op.get('ty', '')).startswith('&'):
+                    temps[st['place']['l']] = [p for p in op['proj'] if p['p'] == 'field'][0]['i']
+                    continue
+                keep.append(st)
+            blk['stmts'] = keep
+        if not temps:
+            cache[key] = (cl, {})
+            return cache[key]
+        nk = max(temps.values()) + 1
+        for k in range(nk):
+            mir['locals'].append({'ty': 'captured#%d' % k})
+
+        def rw(x):
+            if isinstance(x, dict):
+                if isinstance(x.get('l'), int) and isinstance(x.get('proj'), list) and x['l'] in temps and x['proj'] and x['proj'][0]['p'] == 'deref':
+                    x = dict(x, l=base + temps[x['l']], proj=x['proj'][1:])
+                return {k: rw(v) for k, v in x.items()}
+            if isinstance(x, list):
+                return [rw(v) for v in x]
+            return x
+        mir['blocks'] = rw(mir['blocks'])
+        d2 = dict(cl.d)
+        d2['mir'] = mir
+        view = Fn(cl.crate, d2)
+        # what each capture refers to in the parent
+        caps = {base + k: None for k in range(nk)}
+        parent = self.fns.get(cl.id.rsplit('::{closure', 1)[0])
+        if parent is not None and parent.mir:
+            refs = {}
+            for _, blk in parent.blocks():
+                for st in blk['stmts']:
+                    if st['s'] == 'assign' and not st['place']['proj'] and st['rv']['r'] in ('ref', 'rawptr'):
+                        refs[st['place']['l']] = st['rv']['place']
+            for _, blk in parent.blocks():
+                for st in blk['stmts']:
+                    if st['s'] == 'assign' and st['rv']['r'] == 'aggr' and st['rv'].get('ak') == 'closure' and st['rv'].get('closure_id') == cl.id:
+                        for k, o in enumerate(st['rv']['ops']):
+                            if base + k in caps and 'l' in o:
+                                caps[base + k] = refs.get(o['l'], o) if not o['proj'] else o
+        cache[key] = (view, caps)
+        return cache[key]
+
     def reachable(self, roots):
         cg = self.callgraph()
         seen = set()
